@@ -14,7 +14,7 @@ import (
 // reference evaluator. The sequence runs at top level, inside a function, or inside a function
 // reached by recursion. Literal values are symbolic.
 
-const NGadgets = 14
+const NGadgets = 16
 
 func soupDefs(p *Pair) {
 	p.genDefs()
@@ -31,6 +31,8 @@ func soupDefs(p *Pair) {
 		asg("ca", call("mkr", ilit(2))),
 		asg("cb", call("mkr", ilit(3))),
 		asg("firstof", fn(blk(forl("e", call("cn", nm("n")), ret(nm("e"))), ilit(-1)), "n")),
+		asg("firstclo", fn(blk(forl("h", call("mkg", nm("n")), ret(nm("h"))), ilit(0)), "n")),
+		asg("firstcomp", fn(blk(forl("e", call("map", nm("inc"), nm("cntwo")), ret(nm("e"))), ilit(-1)))),
 		asg("upd", fn(blk(asg("y", nm("n")), asg("g", lam(nm("y"))), asg("dd", call("dive", nm("d"))), asg("y", bin("+", nm("n"), ilit(1))), node.List{Elems: []node.Type{call("g"), nm("g")}}), "n", "d")),
 	)
 }
@@ -65,6 +67,10 @@ func gadget(k int) node.Type {
 		return blk(asg("x", bin("+", bin("+", litArr(2), litArr(2)), litArr(1))), asg("y", bin("+", bin("+", nm("x"), litArr(1)), litArr(1))), asg("z", bin("+", bin("+", nm("x"), litArr(1)), litArr(1))), push(nm("y"), nm("z"), nm("x")))
 	case 11: // composed generators
 		return forl("e", call("map", nm("inc"), lam(call("filt", nm("pos"), nm("cntwo")))), push(nm("e")))
+	case 14: // a closure that escapes from a generator abandoned while suspended
+		return blk(asg("kept", call("firstclo", lit())), push(call("kept", ilit(1))))
+	case 15: // a generator built from another generator, abandoned by a return in the loop body
+		return push(call("firstcomp"))
 	case 13: // a loop whose body calls the returning search, the first call searching several rounds
 		return forl("k", call("fromto", ilit(2), ilit(4)), push(nm("k"), call("find", nm("k"))))
 	default: // a closure that must see its definer's update made after a deep call; then kept and called later
@@ -78,8 +84,17 @@ func VerifSoup() {
 	n := vrt.Param("gadgets", 2)
 	ng := vrt.Param("ngadgets", NGadgets)
 	body := []node.Type{asg("acc", node.List{})}
+	keeps := false
 	for i := 0; i < n; i++ {
-		body = append(body, gadget(vrt.Choice("gadget", ng)))
+		k := vrt.Choice("gadget", ng)
+		if k == 5 || k == 14 {
+			keeps = true
+		}
+		body = append(body, gadget(k))
+	}
+	if keeps {
+		// the kept closure still reads its own captured variable after whatever ran since
+		body = append(body, push(call("kept", ilit(3))))
 	}
 	body = append(body, nm("acc"))
 	var prog node.Type
